@@ -48,6 +48,36 @@ fn run(ctx: &Ctx) {
     ctx.run_tape("cap", cap, ctx.pick(12, 120), 64);
     ctx.run_tape("oversize_first", oversize_first, ctx.pick(8, 48), 64);
     ctx.run_tape("big_heartbeat", big_heartbeat, ctx.pick(400, 6000), 64);
+    // hand-built continuation records of 4 GiB and more (zero pages, never touched): the size test must hold in full usize arithmetic
+    ctx.run_fn("huge_continuation", true, "2 first fragments x continuation records of 2^32-1, 2^32, 2^32+1000 and 2^32+10 MiB bytes while defragmenting: refused with TooLarge, state unchanged, the defragmentation still completes", |obs| {
+        let sizes = [(1usize << 32) - 1, 1 << 32, (1 << 32) + 1000, (1 << 32) + MAX_DATA];
+        let mut big: Vec<u8> = Vec::new();
+        if big.try_reserve_exact(sizes[3]).is_err() {
+            obs.class("address-space-unavailable");
+            return Ok(());
+        }
+        big = vec![0u8; sizes[3]];
+        for (ctype, first, rest) in [(0x18u8, vec![1u8, 0], vec![2u8, 0xab, 0xcd]), (0x16, vec![14u8, 0, 0], vec![0u8])] {
+            for &n in &sizes {
+                obs.evals_add(1);
+                let mut p = TlsRecordsParser::default();
+                let mut m = Model::default();
+                let got = step(&mut p, &mut m, &Op::Parse(Rec::new(ctype, 0x0303, first.clone())), "first fragment")?;
+                ensure!(matches!(got, Sum::Incomplete(_)), "C07:huge-continuation:first", "first fragment answered {}", show_sum(&got));
+                // the huge record borrows the zero buffer (no copy is made unless the parser accepts it)
+                let raw = TlsRawRecord { hdr: TlsRecordHeader { record_type: TlsRecordType(ctype), version: TlsVersion(0x0303), len: 0 }, data: &big[..n] };
+                let before = p.verif_defrag_buffer().to_vec();
+                let got = guard("TlsRecordsParser::parse_record", || summarize(p.parse_record(raw)))?;
+                ensure!(got == Sum::Error(ErrorKind::TooLarge), "C07:huge-continuation:not-refused", "{} bytes buffered + a fragment of {} bytes (2^32 {:+}): must be refused with TooLarge, got {}", before.len(), n, n as i64 - (1i64 << 32), show_sum(&got));
+                ensure!(p.verif_defrag_buffer() == before.as_slice() && p.defrag_in_progress(), "C07:huge-continuation:state-changed", "the refused {}-byte fragment changed the state (buffer {} -> {} bytes)", n, before.len(), p.verif_defrag_buffer().len());
+                let got = step(&mut p, &mut m, &Op::Parse(Rec::new(ctype, 0x0303, rest.clone())), "completion after the refusal")?;
+                ensure!(matches!(got, Sum::Ok { .. }), "C07:huge-continuation:completion", "after the refusal the defragmentation must still complete, got {}", show_sum(&got));
+                obs.nontrivial(n as u64 ^ ctype as u64);
+            }
+        }
+        obs.sample(json!({"continuation_sizes": sizes.to_vec()}));
+        Ok(())
+    });
 }
 
 pub const MAX_DATA: usize = 10 * 1024 * 1024;
